@@ -95,6 +95,14 @@ def exhaustive(tier):
     for port in (-1, 0, 1, 2, 65534, 65535, 65536, "0", "1", "65535", "65536", 1.0, 65535.9, 0.9):
         for opts in ({}, {"min": 0}, {"max": 65536}, {"max": 80}):
             yield {"spec": {"kind": "port", "req": False, "opts": opts, "validator": None}, "value": port}
+    # number fields whose bounds are not of the field's own number type (IntField(min=0.5), FloatField(max=3)) x values
+    # on both sides of and inside the gap between the bound and its conversion
+    for kind, bounds, vals in (("int", (0.5, 1.5, -0.5, -1.5, 2.999, float("inf"), float("-inf"), 2), (-2, -1, 0, 1, 2, 3, "1", "0", 1.0, 0.5)),
+                               ("float", (1, -1, 2 ** 53 + 1, 0.5, 3), (0.999, 1, 1.0, 1.001, -1.0, -1.001, float(2 ** 53), float(2 ** 53 + 2), 0.5, "1", 3, 3.0000001))):
+        for b in bounds:
+            for side in ("min", "max"):
+                for v in vals:
+                    yield {"spec": {"kind": kind, "req": False, "opts": {side: b}, "validator": None}, "value": v}
     for exists in (None, False, True, "dir", "file"):
         for name in specs.FS_NAMES + [""]:
             for startdir in ("$ROOT/fs", "$ROOT/fs/sub"):
